@@ -11,6 +11,7 @@ EXPLANATION = ('Minimality of the group count, maximal spread, single-index rema
                '(R16.2) the policy dispatch tables (is_forced, is_relevant_for_coupling, per-policy claim routine, `all` admission = full size); '
                '(R16.3) strict policies are measured against the optimum of the EMPTY worker and accepted with objective >= optimum - eps.')
 NOT_DECIDED = ['minimal number of groups, maximal spread, single-index fractional remainder, no spurious refusal (optimisation results over numbers)']
+RELATED = {'C04': ['R04.3', 'R04.6', 'R04.7']}
 ASSUMPTIONS = ['group_solver (MILP) is trusted']
 W = T + 'worker::'
 ALLOCATOR = W + 'resources::allocator::ResourceAllocator'
